@@ -5,7 +5,7 @@ import (
 	"strings"
 	"time"
 
-	"verif.local/simrt/simnet"
+	"net"
 )
 
 // rawPart is one piece of a raw command: literal text, or a literal (header + payload).
@@ -63,7 +63,7 @@ type cmdOutcome struct {
 type rawPeer struct {
 	r        *R
 	name     string
-	conn     *simnet.Conn
+	conn     net.Conn
 	buf      []byte
 	lineEnd  int // offset in buf up to which complete lines were parsed
 	resps    []Resp
@@ -76,7 +76,7 @@ type rawPeer struct {
 	greeting *Resp
 }
 
-func newRawPeer(r *R, name string, conn *simnet.Conn) *rawPeer {
+func newRawPeer(r *R, name string, conn net.Conn) *rawPeer {
 	return &rawPeer{r: r, name: name, conn: conn, timeout: 10 * time.Minute}
 }
 
